@@ -436,7 +436,7 @@ def run_cases(ctx, cases, what):
 #   (a "drive" whose letter lower() turns into two characters): normalize_path("\u0130:") == "i\u0307:" but
 #   normalize_path("i\u0307:") == "/i\u0307:" - not idempotent, and paths_match("\u0130:", normalize_path("\u0130:")) is False.
 #   (ROOT_RESPELLED_EMPTYREL (Paths!HeldTag) was held until the defect behind it was repaired, repo commit 007fea6.)
-HELD = ("DRIVE_LETTER_FOLD_GROWS",)
+HELD = ()       # DRIVE_LETTER_FOLD_GROWS was held until it was listed as known finding C13-DRIVE-LETTER-FOLD-GROWS
 
 
 def held_strata():
